@@ -167,7 +167,7 @@ func c02LineNumbers(c *Ctx, r *Report) {
 			batchVar := exprStr(rs.X)[:len(exprStr(rs.X))-len(".Batch")]
 			ast.Inspect(rs.Body, func(m ast.Node) bool {
 				ce, ok := m.(*ast.CallExpr)
-				if !ok || !strings.HasSuffix(calleeName(info, ce), ").processLineSync") || len(ce.Args) != 3 {
+				if !ok || !isAnchorCall(c, info, ce, extractorPkg, "(*extractorInstance).processLineSync") || len(ce.Args) != 3 {
 					return true
 				}
 				found = true
@@ -236,10 +236,11 @@ func c02LineNumbers(c *Ctx, r *Report) {
 
 func c02Unsafe(c *Ctx, r *Report) {
 	const rule = "C02-b/unsafe-view"
-	audited := map[string]bool{
-		"rare/pkg/extractor.(*extractorInstance).processLineSync":        true,
-		"rare/pkg/matchers/dissect.(*Dissect).FindSubmatchIndex":         true,
-		"rare/pkg/matchers/dissect.(*DissectInstance).FindSubmatchIndex": true,
+	audited := map[string]bool{}
+	for _, a := range [][2]string{{extractorPkg, "(*extractorInstance).processLineSync"}, {"rare/pkg/matchers/dissect", "(*Dissect).FindSubmatchIndex"}, {"rare/pkg/matchers/dissect", "(*DissectInstance).FindSubmatchIndex"}} {
+		if fi := c.Func(a[0], a[1]); fi != nil {
+			audited[funcDisplayName(fi.Pkg.PkgPath, fi.Decl)] = true
+		}
 	}
 	n := 0
 	for _, fi := range c.AllFuncDecls() {
